@@ -60,7 +60,9 @@ PROPS['C08'] = dict(
     lean=['Mkdb.Props.C08', 'Mkdb.Props.C12'],
     facts=['layout.Tuple.Encode', 'layout.Tuple.Decode', 'const.storage.maxValueSize',
            'const.storage.TypeInt', 'const.storage.TypeVarchar', 'const.storage.TypeBoolean', 'const.storage.TypeBigInt'],
-    runs=[dict(cmd='tuple', proto='tuple'), dict(cmd='sql', proto='sql', args=['literals'], corpus='C08')],
+    runs=[dict(cmd='tuple', proto='tuple'), dict(cmd='sql', proto='sql', args=['literals'], corpus='C08'),
+          dict(cmd='db', proto='db', args=['c08'], corpus='C08db')],
+    sig_filter=r'(tuple|sql):.*|db:(contents-differ|schema-differs|valid-statement-refused|invalid-statement-accepted|select-failed|panic|hang|recovery-failed).*',
     claim='Proof: C08_tuple_roundtrip (for every schema with distinct column names and every assignment of int64 / byte-string / '
           'boolean / NULL values, what Tuple.Encode accepts Tuple.Decode returns bit-for-bit), C08_accept_iff (a row is accepted '
           'exactly when each column is NULL or of the column type, INT within 32 bits) and C08_refuse_kind (which error) are Lean '
